@@ -977,8 +977,6 @@ def generated_program(seed, depth=4):
             # a reshape of an array whose layout optimisation may change (the result of a native sliding-window reduction,
             # or of a take, whose advertised chunks are not stable) is known finding F52 (its own contract)
             continue
-        if name == "repeat" and taken and seed not in KNOWN_FINDING_SEEDS:
-            continue        # known finding F53 (its own contract): repeat over a take-derived array under optimize-graph False
         if name == "take":
             taken = True
         if name == "swv-sum":
